@@ -96,6 +96,23 @@ def run(tier, seed, opens):
                              'F-C05-address-object-network')
                     except Exception:
                         ok += 1
+    # E: segwit addresses whose prefix belongs to NO network the library knows (other chains: grs, vtc, dgb, xyz), and the upper-case form of a
+    #    known address used on a different network: never a destination of this transaction's network
+    for net in ('bitcoin', 'testnet', 'litecoin'):
+        for hrp in ('grs', 'vtc', 'dgb', 'xyz', 'BC', 'TB'):
+            for kind, ln, witver in (('p2wpkh', 20, 0), ('p2wsh', 32, 0), ('p2tr', 32, 1)):
+                if hrp.lower() == NETWORK_DEFINITIONS[net]['prefix_bech32']:
+                    continue
+                payload = bytes(rng.getrandbits(8) for _ in range(ln))
+                addr = b32.encode(hrp.lower(), witver, list(payload))
+                if hrp.isupper():
+                    addr = addr.upper()
+                cases += 1
+                try:
+                    o = Output(1000, address=addr, network=net)
+                    fail('foreign-prefix', {'network': net, 'address': addr}, 'accepted, script %s' % o.lock_script.hex(), 'refused')
+                except Exception:
+                    ok += 1
     res = {'contract': 'Output[bounded]', 'target': 'bitcoinlib.transactions.Output.__init__', 'status': 'ok', 'props': ['C05'],
            'bounded': '%d random payloads per (network, kind) for 11 networks x {p2pkh, p2sh, p2wpkh, p2wsh, p2tr, witness v2..v16}' % reps,
            'paths': cases, 'obligations': [{'name': 'Output#bounded-address-script-mapping', 'kind': 'bounded', 'paths': cases, 'discharged': ok,
